@@ -430,7 +430,7 @@ def repo_head():
 
 
 def write_replay(prop, seed, i, scenario, v, dig, dirname="replays"):
-    d = os.path.join(VERIF, dirname)
+    d = os.environ.get("TESIM_REPLAY_DIR") or os.path.join(VERIF, dirname)
     os.makedirs(d, exist_ok=True)
     path = os.path.join(d, "{}-s{}-r{}.json".format(prop, seed, i))
     body = {
@@ -482,7 +482,7 @@ def fresh_digests(prop, seed, indices, hashseed):
 # --------------------------------------------------------------------------
 def write_evidence(prop, body):
     import jsonschema
-    d = os.path.join(VERIF, "evidence")
+    d = os.environ.get("TESIM_EVIDENCE_DIR") or os.path.join(VERIF, "evidence")
     os.makedirs(d, exist_ok=True)
     path = os.path.join(d, prop + ".json")
     schema_path = "/root/.vp/EVIDENCE.schema.json"
